@@ -244,6 +244,114 @@ CHECKS["C12"] = dict(
          "correspondence only; the schema-level reachable-only statement is executed per case, not proved.",
 )
 
+CHECKS["C02"] = dict(
+    text=("Machine-checked theorems (Coq) over a model of the reply path: sax.parser.Handler (xmlns handling, "
+          "character buffering, trim only with children), Element.promotePrefixes/resolvePrefix/namespace/isnil, "
+          "Binding.get_reply/replylist/replycomposite, Document.replycontent/returned_types, NodeResolver, BlindQuery, "
+          "umx.core append*/postprocess, umx.typed and AttrList, against a reference decoder over the namespace "
+          "infoset: for documents of ANY depth, width and list length decode_value / reply_decodes show the model "
+          "returns the value the reference prescribes (typed leaves, repeating members as lists even for one "
+          "occurrence, xsi:nil as None, attributes under underscore names, xsi:type selecting the derived type, "
+          "single value vs composite), decode_presentation_independent shows two raw documents with one infoset "
+          "decode alike, chars_chunking covers any chunking of character data; six departures of the code are "
+          "refuted with witnesses, guarded, and listed as known findings. ~1.3k replies per quick run, written by an "
+          "independent writer under random presentations (SOAP 1.1/1.2, prefix maps, default namespace incl. "
+          "xmlns='', rebinding and shadowing, entity/character references, CDATA, comments, whitespace) are injected "
+          "into real clients and compared with model and reference inside Coq (16k thorough)."),
+    design="DESIGN.md §5 C02",
+    technique="Coq proof (induction on the document) over a Gallina model of the unmarshaller + in-Coq differential "
+              "correspondence under random presentations",
+    note="Covers document/literal wrapped replies; rpc and bare bindings, simpleContent types and multiref (C18) are "
+         "not modelled here. Lexical-to-Python translation beyond the type tag is C06's; expat's tokenisation and "
+         "entity decoding is the model's input (trusted).",
+)
+
+CHECKS["C03"] = dict(
+    text=("Machine-checked theorems (Coq) over a model of Factory.create: PathResolver.split (the regex with its "
+          "backtracking order), qualify, root/branch/leaf, BlindQuery, TypedContent.resolve, sxbase.Iter order after "
+          "Extension.merge, Builder.build/process/add_attributes/skip_child/skip_value/ordering with the history "
+          "cut-off, Object.__setattr__ and sudsobject.Iter: for EVERY interface and every well-formed spelling "
+          "create_meets_spec shows the object mirrors the type (content model in order, inherited first, repeating -> "
+          "[], optional -> None, choice/wildcard members absent, _attr = declared default, required complex children "
+          "pre-built until the type recurs), for unbounded nesting and any cycle of types (fuel proved sufficient); "
+          "spellings (plain, prefixed, {ns}, dotted) are interchangeable; unknown names — undeclared prefixes "
+          "included — raise TypeNotFound and never yield a partial object; on the C01 marshaller model a typed value "
+          "and its untyped dict marshal alike. ~13k cases per quick run (36 generated interfaces: every global name "
+          "in every root form, members, random walks to depth 4, @attrs, 20+ kinds of unknown name, adversarial "
+          "split/qualify strings, filled-object-vs-dict request pairs) are compared with model and spec inside Coq."),
+    design="DESIGN.md §5 C03",
+    technique="Coq proof (induction with history cut-off, regex model) + in-Coq differential correspondence",
+    note="ElementQuery deep search, simpleContent/mixed types, element refs, Factory.separator and names containing "
+         "'.' are neither modelled nor generated; filled object vs dict is tied to the C01 model by envelope "
+         "correspondence only.",
+)
+
+CHECKS["C08"] = dict(
+    text=("Machine-checked theorems (Coq) over a verbatim model of suds/argparser.py (frame stack, ancestry matching, "
+          "ChoiceFrame, positional-then-keyword lookup, extra/duplicate reporting, callback log), "
+          "Document.bodycontent.add_param/mkparam and RPC.bodycontent: for EVERY parameter tree of any width and "
+          "depth, every argument vector and both extraArgumentErrors settings, model_meets_spec / counts_correct / "
+          "reject_iff / reject_reason_sound show required/allowed counts equal the tree's (sum over sequences/all, "
+          "min over choice branches), a call is rejected exactly when Python binding rules or a choice conflict "
+          "require it, each TypeError names a present reason, nothing is rejected with checking off, accepted calls "
+          "produce one callback per parameter in order with the bound value, equal bindings give equal requests. "
+          "Proof route: simulation of the partial machine by a total ghost machine + rose-tree induction. ~40k cases "
+          "per quick run (every structure with <= 2 parameters and depth <= 3 x every marking, valued subset, split "
+          "point; all 3-parameter shapes; seeded 4-6 parameter structures; 42 rendered WSDLs through real clients in "
+          "all call styles incl. unwrap off; rpc) are compared inside Coq; nothing may reach a recording transport on "
+          "rejection. rpc bindings never run the parser: refuted with a witness, known finding."),
+    design="DESIGN.md §5 C08",
+    technique="Coq proof (ghost-machine simulation + rose-tree induction) + exhaustive small-scope correspondence",
+    note="Document.param_defs/Iter ancestry, Typed.translate/sort, envelope bytes and TypeError texts are covered by "
+         "the harness only; a bare multi-part document message is not expressed as a tree.",
+)
+
+CHECKS["C11"] = dict(
+    text=("Machine-checked theorems (Coq) over a model of suds/cache.py at system-call granularity (abstract file "
+          "system, clock, put/get/purge/clear/_getf/expiry/version check with suds' exception handling; faults at "
+          "open, read, write after n bytes with or without zero fill, close) and of the reader layer "
+          "(Reader.mangle, both policy switches, DocumentReader.open, DefinitionsReader.open): with ser/deser/md5 "
+          "universally quantified under round-trip (H1) and torn-prefix-rejection (H2) hypotheses, for histories of "
+          "ANY length over any ids, instances and cache classes every lookup returns nothing or the latest fresh "
+          "completed store (cache_refines_map), lookups and stores never raise, damaged/expired entries are removed, "
+          "a foreign version stamp clears every class, file names are injective in (class, id); for every "
+          "interleaving of any number of processes a lookup returns nothing or an object some process stored under "
+          "that name (given a mixture-rejecting format, H3 — shown necessary by a witness); a warm client fetches "
+          "nothing; cached WSDL objects get the current options and unwrap setting. ~12k cases per quick run "
+          "(exhaustive histories to length 3 over a 15-letter alphabet, random to 12, torn-write sweep over every "
+          "offset of real entries, cold/warm client fingerprints over generated document graphs x policy x cache "
+          "class x options) are compared inside Coq. PARTIAL: kernel file semantics, pickle and real multi-process "
+          "timing are runtime behaviour; warm = cold is decided by correspondence."),
+    design="DESIGN.md §5 C11",
+    technique="Coq refinement proof (invariant + simulation over histories; schedule theorem under a format "
+              "hypothesis) + in-Coq differential correspondence incl. torn-write sweep",
+    note="H1-H3 are theorem hypotheses (Section variables), validated empirically by the torn-write and overlay "
+         "sweeps against pickle and the SAX parser; the concurrency theorem assumes whole-entry writes.",
+)
+
+CHECKS["C19"] = dict(
+    text=("Machine-checked refinement theorems (Coq, ~5k lines) over a heap model of suds.sax.element (ids, parent "
+          "pointers, child lists, attributes, text, prefix maps): append/insert/remove/detach/replaceChild/"
+          "detachChildren/prune/set/unset/setText/rename/setPrefix/addPrefix/clearPrefix/clone and the six lookups, "
+          "statement by statement, against a reference forest that identifies nodes by identity: for edit histories "
+          "of ANY length the heap stays in the simulation relation with the reference and both return the same "
+          "values (edit_refines_reference, no hypothesis on sibling names), the heap stays well-formed (parent and "
+          "children agree both ways, no sharing, acyclic), data edits and detach write only the node given, a clone "
+          "is equal and made of fresh nodes only, lookups return exactly the document-order matches; the old "
+          "equality-based removal is kept as a refuted variant. ~1.8k histories / 14k observed steps per quick run "
+          "(all 1- and 2-operation histories over a small tree with repeated sibling names, sampled 3-4, random to "
+          "length 25 over trees to depth 4 with mixed namespaces and prefixes) are executed on real Elements and "
+          "compared after EVERY step (returned value, parent/children/fields of every object by identity, plain()) "
+          "with model and reference inside Coq; 53k histories thorough."),
+    design="DESIGN.md §5 C19",
+    technique="Coq refinement proof (simulation relation between heap and identity forest, induction over histories) "
+              "+ step-wise differential correspondence",
+    note="The reference is partial (no claim for edits on pruned nodes, re-appending a node that still has a parent, "
+         "etc.; the model still follows the code there and is compared with it). promotePrefixes/refitPrefixes/"
+         "normalizePrefixes (C05), trim and setnil are not modelled; Document, MultiRef and wsdl import_schema "
+         "appear as probes only.",
+)
+
 PENDING = {}
 
 
